@@ -167,6 +167,20 @@ Proof.
   vm_compute. repeat split. discriminate.
 Qed.
 
+(* ---- kept finding (same family): an alias named like a constructor keyword that is no attribute of the object passes the clash
+   check; M(span, default_value=5) then silently becomes M(span, X=5): X is 5, Y keeps 0.0, where the class without that alias
+   fills both with 5 *)
+Theorem alias_named_like_keyword_refuted :
+  exists am,
+    amap am = [("default_value", "X")] /\
+    (let r := keyword_call [] am CModel [10; 11; 12]%Z false RFloat ["X"; "Y"] [("default_value", OScalar (PInt 5))] in
+     let r0 := keyword_call [] (mkAobj [] []) CModel [10; 11; 12]%Z false RFloat ["X"; "Y"] [("default_value", OScalar (PInt 5))] in
+     snd r = Ret tt /\ snd r0 = Ret tt /\
+     getitem (KName "X") (fst r) = Ret [PFlt (FHalf 10); PFlt (FHalf 10); PFlt (FHalf 10)]%Z /\
+     getitem (KName "Y") (fst r) = Ret [PFlt (FHalf 0); PFlt (FHalf 0); PFlt (FHalf 0)]%Z /\
+     getitem (KName "Y") (fst r0) = Ret [PFlt (FHalf 10); PFlt (FHalf 10); PFlt (FHalf 10)]%Z).
+Proof. exists (mkAobj [("default_value", "X")] []). vm_compute. repeat split. Qed.
+
 (* the hypotheses of preferred_title are satisfiable (A is the preferred name of X, declared through a chain of three) *)
 Example preferred_title_hypotheses :
   In "A" (apref am3) /\ aget (amap am3) "A" = "X" /\ ~ In "X" (akeys (amap am3)) /\
